@@ -873,3 +873,33 @@ def op_c11(case):
         elif o.get("hang"):
             out.append({"entry": entry, "hang": True})
     return {"errors": out}
+
+
+# ---------------------------------------------------------------------------------------------
+# C12: the two entry points on the same content
+# ---------------------------------------------------------------------------------------------
+def _outcome(o: dict) -> dict:
+    if o.get("hang"):
+        return {"kind": "hang"}
+    if o.get("ok"):
+        return {"kind": "tree", "dump": o.get("dump"), "rows": o.get("rows")}
+    e = o["exc"]
+    return {"kind": "exc", "cls": e["cls"], "msg": e["msg"], "ln": e.get("lineno"), "off": e.get("offset"), "eln": e.get("end_lineno"),
+            "eoff": e.get("end_offset"), "text": e.get("text")}
+
+
+def op_c12(case):
+    import locale
+
+    src = case["src"]
+    a = _outcome(obs_parse(src, "exec", want=("rows",)))
+    b = _outcome(obs_parse_file(src, want=("rows",)))
+    r = {"env": {"preferred": locale.getpreferredencoding(False), "utf8_mode": sys.flags.utf8_mode}, "string": a, "file": b}
+    if a["kind"] == "tree" and b["kind"] == "tree":
+        r["a"], r["b"] = row_digests(b["rows"]), row_digests(a["rows"])
+        if r["a"] != r["b"]:
+            r["diff"] = first_diff(b["rows"], a["rows"])
+    for x in (a, b):
+        x.pop("rows", None)
+        x.pop("dump", None)
+    return r
